@@ -23,12 +23,26 @@ KW = ["select", "order", "group", "table", "from", "user", "end", "case", "where
 CTE = ["my_cte", "cte", "x_cte_y", "orders_cte", "a_cte_cte", "_cte"]
 OTHER = ["amount_raw", "x_raw", "raw", "Orders", "orderItems", "ORDERS", "_x", "x1", "t", "base", "lag_cte", "id_col", "cat_col", "num_col", "ts_col"]
 POOL = KW + CTE + OTHER
+# every keyword also Capitalised and UPPER-CASE: reserved words are reserved whatever their case
+FIELD_POOL = POOL + [k.capitalize() for k in KW] + [k.upper() for k in KW]
+
+
+def sample_fields(rng, n):
+    """n names, distinct ignoring case (the engine's column names are case-insensitive)"""
+    out, seen = [], set()
+    for x in rng.sample(FIELD_POOL, len(FIELD_POOL)):
+        if x.lower() not in seen:
+            seen.add(x.lower())
+            out.append(x)
+        if len(out) == n:
+            break
+    return out
 GRANS = ["hour", "day", "week", "month", "quarter", "year"]
 
 
 def gen_model(rng):
     mname = rng.choice(POOL)
-    names = rng.sample(POOL, 9)
+    names = sample_fields(rng, 9)
     d = {"name": mname, "composite": rng.random() < 0.3, "sqlbacked": rng.random() < 0.3, "quoted_table": rng.random() < 0.5,
          "dims": [{"name": names[0], "type": "categorical", "sql": "cat_col"}, {"name": names[1], "type": "time", "sql": "ts_col", "granularity": rng.choice(["day", "hour", "month"])},
                   {"name": names[2], "type": "numeric", "sql": "num_col"}, {"name": names[3], "type": "boolean", "sql": "num_col > 5"}],
@@ -376,7 +390,7 @@ def run(ck: Check):
     positive(ck, ck.rng, (400 if thorough else 60) * (3 if (bad or ck.broken) else 1), stats)
     ck.coverage.update({
         "evaluations": stats["single_field_queries"] + stats["ill_formed_queries"] + stats["qualifiers"] + stats["dependency_graphs"], "distinct_nontrivial": stats["executed_ok"],
-        "rule": f"models named from a pool of {len(POOL)} identifiers ({len(KW)} SQL keywords, names containing _cte / _raw, mixed case, names equal to physical columns and to the generator's own aliases) with four dimension types, simple/ratio/derived/expression metrics, 0-3 further derived/ratio metrics over a random dependency graph (chains, diamonds, rarely cycles) at model level and at graph level, and a segment, composite keys, sql-backed, quoted table names: every single-field query (each granularity) compiled and executed; ill-formed references from C07's generator (unknown model/field, misspelt, wrong or misplaced granularity, missing prefix, extra dots) and disconnected models; _model_from_table on hostile qualifiers; random dependency graphs (1-5 derived/ratio metrics, 1-3 references each, self-references and cycles of every length) through the registration check, add_model and compile",
+        "rule": f"models named from a pool of {len(POOL)} identifiers, fields from {len(FIELD_POOL)} ({len(KW)} SQL keywords in lower, Capitalised and UPPER case, names containing _cte / _raw, mixed case, names equal to physical columns and to the generator's own aliases) with four dimension types, simple/ratio/derived/expression metrics, 0-3 further derived/ratio metrics over a random dependency graph (chains, diamonds, rarely cycles) at model level and at graph level, and a segment, composite keys, sql-backed, quoted table names: every single-field query (each granularity) compiled and executed; ill-formed references from C07's generator (unknown model/field, misspelt, wrong or misplaced granularity, missing prefix, extra dots) and disconnected models; _model_from_table on hostile qualifiers; random dependency graphs (1-5 derived/ratio metrics, 1-3 references each, self-references and cycles of every length) through the registration check, add_model and compile",
         "stats": dict(stats), "traces_validated_against_impl": stats["ill_formed_queries"] + stats["qualifiers"],
     })
     ck.assumptions += ["names are identifier-shaped ([A-Za-z_][A-Za-z0-9_]*, no double underscore); physical column names and the names used INSIDE user-written formulas are benign (unquoted keywords there are the user's SQL)",
